@@ -54,7 +54,7 @@ def gen_history(rng: random.Random) -> dict:
         elif kind == 'restart':
             ops.append({'op': 'restart'})
         else:
-            ops.append({'op': 'mutate', 'storage': storage, 'how': rng.choice(['insert', 'delete', 'update']),
+            ops.append({'op': 'mutate', 'storage': storage, 'how': rng.choice(['insert', 'delete', 'update', 'insert', 'update', 'drop', 'restore']),
                         'arg': rng.randint(0, 99)})
     return {'contents': contents, 'ops': ops}
 
@@ -76,6 +76,7 @@ class Run:
         os.makedirs(self.home)
         os.makedirs(self.data)
         self.contents = copy.deepcopy(history['contents'])
+        self.dropped: set = set()
         for storage in self.contents:
             self.flush(storage)
         self.child: typing.Optional[boxmod.Child] = None
@@ -105,6 +106,15 @@ class Run:
 
     def flush(self, storage: str) -> None:
         kind = STORAGES[storage]
+        if storage in self.dropped:  # the storage is unavailable: no tables / no files
+            if kind.startswith('sql'):
+                feeds.write_sqlite(self.location(storage), {'T': [], 'U': []}, kind[3:], drop_only=True)
+            elif kind == 'csv':
+                for name in ('T', 'U'):
+                    path = f'{self.location(storage)}_{name}.csv'
+                    if os.path.exists(path):
+                        os.unlink(path)
+            return
         rows = {k: [tuple(r) for r in v] for k, v in self.contents[storage].items()}
         if kind.startswith('sql'):
             feeds.write_sqlite(self.location(storage), rows, kind[3:])
@@ -124,7 +134,9 @@ class Run:
                 'content': self.contents[storage] if STORAGES[storage] == 'inline' else None}
 
     # -- the two references -----------------------------------------------------------------------
-    def truth(self, storage: str, sid: str) -> list:
+    def truth(self, storage: str, sid: str):
+        if storage in self.dropped:
+            return 'ERROR'
         return feeds.evaluate(sid, self.contents[storage])
 
     def modelled(self, storage: str, sid: str, commit: bool) -> tuple:
@@ -141,6 +153,8 @@ class Run:
         if family(storage) == 'mono':
             view = {}
             for table in feeds.tables(sid):
+                if ('registered', STORAGES[storage], table) not in lazy and storage in self.dropped:
+                    return ('ERROR', storage, self.version[storage], 'storage')
                 # origins compare equal per (origin class, schema): the first CSV (or inline) feed of a process wins
                 # among its kind, but a registration by the other kind replaces the shared DuckDB view of that name
                 token = ('registered', STORAGES[storage], table)
@@ -157,6 +171,8 @@ class Run:
         else:
             entry = (self.truth(storage, sid), storage, self.version[storage])
             layer = 'storage'
+            if entry[0] == 'ERROR':
+                return (*entry, layer)
         if commit:
             self.lazy = lazy
             self.mem[key] = entry
@@ -182,6 +198,14 @@ class Run:
         storage = op['storage']
         if kind == 'mutate':
             trows = self.contents[storage]['T']
+            if op['how'] in ('drop', 'restore'):
+                if STORAGES[storage] == 'inline':
+                    return
+                (self.dropped.add if op['how'] == 'drop' else self.dropped.discard)(storage)
+                self.version[storage] += 1
+                self.flush(storage)
+                self.stats['fault:storage-unavailable' if op['how'] == 'drop' else 'storage-restored'] += 1
+                return
             if op['how'] == 'insert':
                 trows.append([max((r[0] for r in trows), default=0) + 1, op['arg'] % 10, 'xyz'[op['arg'] % 3]])
             elif op['how'] == 'delete' and len(trows) > 1:
@@ -196,7 +220,7 @@ class Run:
         args = self.args(storage, sid)
         where = f'op{idx} read {sid} via {storage} (incarnation {self.nchild + (0 if self.child and self.child.alive else 1)})'
         truth = self.truth(storage, sid)
-        if self.rng.random() < self.pristine_p:
+        if truth != 'ERROR' and self.rng.random() < self.pristine_p:
             # cross-check the reference evaluator against a pristine process (fresh home, fresh feed)
             home = os.path.join(self.box.base, f'pristine{idx}')
             os.makedirs(home)
@@ -246,12 +270,18 @@ class Run:
         rows, origin, ver, layer = self.modelled(storage, sid, commit=res.ok)
         self.events.append([sid, storage, layer, res.ok])
         if not res.ok:
+            if rows == 'ERROR':
+                self.stats['expected-errors'] += 1  # the storage can not answer: the read fails, nothing is cached
+                return
             if rows == TORN:
                 self.note_known('torn-cache-file-poisons-statement', f'{where}: fails with {res.value[:120]} - the cache '
                                                                      f'file was torn by an earlier process death')
                 return
             raise base.Violation('read-failed', f'{where}: {res.value[:300]} (reference: {truth})')
         got = res.value
+        if rows == 'ERROR':
+            raise base.Violation('read-succeeded-on-unavailable-storage', f'{where}: returned {got} although the storage '
+                                                                          f'is unavailable and nothing was cached')
         if got == truth:
             self.stats['fresh-reads'] += 1
             if rows != TORN and rows != truth:
